@@ -2,6 +2,7 @@
 from __future__ import annotations
 
 import itertools
+import re
 import json as _json
 from pathlib import PurePosixPath
 import posixpath
@@ -330,5 +331,34 @@ def replay(ctx: Ctx, case: dict) -> None:
     process(ctx, [case])
 
 
-KNOWN_CLASSES: dict = {}
-WITNESSES: dict = {}
+def _d48(v: dict) -> bool:
+    """an include directive inside a nested dict, read with includes=False"""
+    files = v["input"].get("files", {}) if isinstance(v.get("input"), dict) else {}
+    return "includes=False" in v.get("what", "") and any(re.search(r"\{[^}]*#\s*include", t, re.S) for t in files.values())
+
+
+def _w48() -> bool:
+    from dictIO import DictReader
+    with impl.scratch() as td:
+        (td / "c").write_text("z 9;\n")
+        (td / "p").write_text("a 1;\nsub\n{\n    #include 'c'\n    b 2;\n}\n")
+        r = impl.plain(DictReader.read(td / "p", includes=False))
+        return any(str(k).startswith("INCLUDE") for k in r.get("sub", {}))
+
+
+def _d49(v: dict) -> bool:
+    """a line comment on the line of an include directive"""
+    files = v["input"].get("files", {}) if isinstance(v.get("input"), dict) else {}
+    return any(re.search(r"^\s*#\s*include[^\n]*//", t, re.M) for t in files.values())
+
+
+def _w49() -> bool:
+    from dictIO import DictReader
+    with impl.scratch() as td:
+        (td / "c").write_text("z 9;\n")
+        (td / "q").write_text("#include 'c' // note\na 1;\n")
+        return "z" not in impl.plain(DictReader.read(td / "q"))
+
+
+KNOWN_CLASSES: dict = {"nested_include_directive_off": _d48, "comment_on_include_line": _d49}
+WITNESSES: dict = {"D48": _w48, "D49": _w49}
